@@ -14,8 +14,10 @@ type Lab struct {
 	Actor string `json:"actor"`
 	Mode  string `json:"mode"`
 	Wire  string `json:"wire"` // "object" | "absent" (no arguments member) | "nonobject" (arguments is a JSON string)
-	Extra bool   `json:"extra"`
-	Valid bool   `json:"valid"`
+	// "sqlite" | "proxy" (queue backend memory in the config file: queue tools forward to the Admin API)
+	Backend string `json:"backend"`
+	Extra   bool   `json:"extra"`
+	Valid   bool   `json:"valid"`
 }
 
 // Row is one abstract input: a row of the gating table plus an argument shape.
@@ -39,12 +41,13 @@ type Row struct {
 // Real is the ground truth about the concrete arguments, computed by the
 // executor from what it actually sent (binding check against Row.Lab).
 type Real struct {
-	Path  string `json:"path"`
-	Pid   string `json:"pid"`
-	Actor string `json:"actor"`
-	Mode  string `json:"mode"`
-	Wire  string `json:"wire"`
-	Extra bool   `json:"extra"`
+	Path    string `json:"path"`
+	Pid     string `json:"pid"`
+	Actor   string `json:"actor"`
+	Mode    string `json:"mode"`
+	Wire    string `json:"wire"`
+	Backend string `json:"backend"`
+	Extra   bool   `json:"extra"`
 }
 
 // Audit is one parsed audit record.
@@ -105,6 +108,8 @@ type Event struct {
 	Foreign     []string `json:"foreign_changed"` // files other than the configured config file that changed / appeared / vanished in the config dirs
 	ContentOK   bool     `json:"content_ok"`      // the submitted "content" argument parses and compiles
 	ContentSha  string   `json:"content_sha"`     // sha256 of the submitted "content" ("" if none)
+	AdminPosts  int      `json:"admin_posts"`     // non-GET requests the fake Admin API received during the call
+	AdminGets   int      `json:"admin_gets"`      // GET requests other than the health probe
 	Spawned     bool     `json:"spawned"`         // a child process was started by the server
 	Victim      Victim   `json:"victim"`          // process named by the configured pid file
 	FVictim     Victim   `json:"fvictim"`         // process named by the foreign pid file
